@@ -170,6 +170,10 @@ impl Prop for C16 {
         });
         vec![("exhaustive-small".into(), scope, Box::new(it)), (name, format!("{scope2} (inputs of length <= 3 only)"), Box::new(it2))]
     }
+    fn extra(&self, ctx: &mut Ctx) -> Vec<(String, Verdict, Option<AstCase>)> {
+        // the target `lang` also compares the engine's nullability verdict with R1
+        super::c01::lang_campaign("C16", ctx, &|case, ctx| check_nullable(case, ctx))
+    }
     fn check(&self, case: &AstCase, ctx: &mut Ctx) -> Verdict {
         check_nullable(case, ctx)
     }
